@@ -11,7 +11,10 @@
 import asyncio
 import inspect
 
-from traits.observation._observe import add_or_remove_notifiers
+from traits.observation._observe import (
+    add_or_remove_notifiers,
+    undo_processed,
+)
 from traits.observation.expression import compile_expr
 
 #: Set to hold references to active async traits handlers.
@@ -94,12 +97,20 @@ def apply_observers(object, graphs, handler, *, dispatcher, remove=False):
         If True, remove notifiers. i.e. unobserve the traits. The default
         is False.
     """
-    for graph in graphs:
-        add_or_remove_notifiers(
-            object=object,
-            graph=graph,
-            handler=handler,
-            target=object,
-            dispatcher=dispatcher,
-            remove=remove,
-        )
+    # One undo log for all graphs: if any of them cannot be applied, nothing
+    # stays attached (or detached).
+    processed = []
+    try:
+        for graph in graphs:
+            add_or_remove_notifiers(
+                object=object,
+                graph=graph,
+                handler=handler,
+                target=object,
+                dispatcher=dispatcher,
+                remove=remove,
+                _processed=processed,
+            )
+    except Exception:
+        undo_processed(processed, remove)
+        raise
